@@ -7,6 +7,7 @@
   number type.
 -/
 import OpwVerif.Generated.SrcCons
+import OpwVerif.Misc
 namespace Opw.TieCons
 open Opw
 variable {R : Type} [OpwNum R]
@@ -27,5 +28,14 @@ theorem updateRange_history_independent (c c' : Constraints R) (f t : J6 R) (hw 
 /-- [G] in particular a sequence of updates ends in the object of the last one -/
 theorem updateRange_twice (c : Constraints R) (f1 t1 f2 t2 : J6 R) :
     SrcCons.updateRangeSrc (SrcCons.updateRangeSrc c f1 t1) f2 t2 = SrcCons.updateRangeSrc c f2 t2 := rfl
+
+/-- [G] the per-joint sampler nested in `random_angles`, translated from the CURRENT source with the generator's draw as a
+parameter (`gen_range(0.0..len)` ↦ `u`), is the model's `randomAngle`; the translator also checks that joint `i` is drawn from
+`(from[i], to[i])` for i = 0..5.  The C18 theorems (every draw `0 ≤ u < sampleSpan` gives an accepted angle) are about it -/
+theorem randomAngle_is_source (f t u : R) : SrcCons.randomAngleSrc f t u = randomAngle f t u := by
+  unfold SrcCons.randomAngleSrc randomAngle sampleSpan
+  by_cases h : f < t
+  · simp [h]
+  · simp only [h, if_false]
 
 end Opw.TieCons
